@@ -236,7 +236,7 @@ def run(ctx):
                        "merging of split sub-messages is outside the statement (flagged by the spec decoder and accepted)",
                        "float values are compared numerically (NaN identified, -0.0 == 0.0), as Python equality does"]
     schema, msgs = pool(ctx, quick)
-    cases = run_legalenc(ctx, schema, msgs, (1, 1, 1, 2, 2) if quick else (2, 1, 2, 3, 3), True, 1500 if quick else 6000)
+    cases = run_legalenc(ctx, schema, msgs, (1, 1, 1, 2, 2) if quick else (2, 1, 2, 3, 2), True, 1500 if quick else 6000)
     seen = set()
     uniq = []
     for c in cases:
